@@ -550,8 +550,6 @@ ENS_PREFIX_KEPT(to)
 /* ghost description of a C string argument: g_slen is its length (position of the first NUL), stated for one arbitrary
  * witness position g_sw ("no NUL before g_slen").  strlen() is replaced by the ASSUMED contract below (CBMC's library
  * model is an unbounded loop); harnesses of functions that take a C string set g_slen/g_sw to arbitrary values. */
-size_t g_slen;
-size_t g_sw;
 #define CSTR_FACTS(s) (((const uint8_t *)(s))[g_slen] == 0 && (g_sw < g_slen ==> ((const uint8_t *)(s))[g_sw] != 0))
 #define CSTR_OK(s) (g_slen < VERIF_HUGE && __CPROVER_is_fresh((s), g_slen + 1) && CSTR_FACTS(s))
 
@@ -564,11 +562,54 @@ __CPROVER_ensures(RET == g_slen)
 /* specification of the two lookup tables of byte_buf.c (checked against the real tables for all 256 values by the
  * units table_tolower / table_hex_to_num) */
 #define SPEC_ISHEX(c) (((c) >= '0' && (c) <= '9') || ((c) >= 'a' && (c) <= 'f') || ((c) >= 'A' && (c) <= 'F'))
-#define SPEC_HEXVAL(c)                                                                                                 \
+/* the definitions, as range formulas ... */
+#define SPEC_HEXVAL_F(c)                                                                                               \
     ((uint8_t)(((c) >= '0' && (c) <= '9') ? (c) - '0'                                                                  \
                : ((c) >= 'a' && (c) <= 'f') ? (c) - 'a' + 10                                                           \
                : ((c) >= 'A' && (c) <= 'F') ? (c) - 'A' + 10 : 255))
-#define SPEC_LOWER(c) ((uint8_t)(((c) >= 'A' && (c) <= 'Z') ? (c) + ('a' - 'A') : (c)))
+#define SPEC_LOWER_F(c) ((uint8_t)(((c) >= 'A' && (c) <= 'Z') ? (c) + ('a' - 'A') : (c)))
+/* ... and as specification tables, used in the contracts because a clause then reads the byte once (the formulas mention
+ * their argument up to ten times; with a symbolic index into a symbolic-size object every mention is a separate array
+ * read and the SAT instance grows from seconds to minutes).  The units table_tolower / table_hex_to_num prove for all
+ * 256 values: spec table == formula == real table of byte_buf.c. */
+static const uint8_t verif_hexval_tab[256] = {
+    255, 255, 255, 255, 255, 255, 255, 255, 255, 255, 255, 255, 255, 255, 255, 255,
+    255, 255, 255, 255, 255, 255, 255, 255, 255, 255, 255, 255, 255, 255, 255, 255,
+    255, 255, 255, 255, 255, 255, 255, 255, 255, 255, 255, 255, 255, 255, 255, 255,
+      0,   1,   2,   3,   4,   5,   6,   7,   8,   9, 255, 255, 255, 255, 255, 255,
+    255,  10,  11,  12,  13,  14,  15, 255, 255, 255, 255, 255, 255, 255, 255, 255,
+    255, 255, 255, 255, 255, 255, 255, 255, 255, 255, 255, 255, 255, 255, 255, 255,
+    255,  10,  11,  12,  13,  14,  15, 255, 255, 255, 255, 255, 255, 255, 255, 255,
+    255, 255, 255, 255, 255, 255, 255, 255, 255, 255, 255, 255, 255, 255, 255, 255,
+    255, 255, 255, 255, 255, 255, 255, 255, 255, 255, 255, 255, 255, 255, 255, 255,
+    255, 255, 255, 255, 255, 255, 255, 255, 255, 255, 255, 255, 255, 255, 255, 255,
+    255, 255, 255, 255, 255, 255, 255, 255, 255, 255, 255, 255, 255, 255, 255, 255,
+    255, 255, 255, 255, 255, 255, 255, 255, 255, 255, 255, 255, 255, 255, 255, 255,
+    255, 255, 255, 255, 255, 255, 255, 255, 255, 255, 255, 255, 255, 255, 255, 255,
+    255, 255, 255, 255, 255, 255, 255, 255, 255, 255, 255, 255, 255, 255, 255, 255,
+    255, 255, 255, 255, 255, 255, 255, 255, 255, 255, 255, 255, 255, 255, 255, 255,
+    255, 255, 255, 255, 255, 255, 255, 255, 255, 255, 255, 255, 255, 255, 255, 255,
+};
+static const uint8_t verif_lower_tab[256] = {
+      0,   1,   2,   3,   4,   5,   6,   7,   8,   9,  10,  11,  12,  13,  14,  15,
+     16,  17,  18,  19,  20,  21,  22,  23,  24,  25,  26,  27,  28,  29,  30,  31,
+     32,  33,  34,  35,  36,  37,  38,  39,  40,  41,  42,  43,  44,  45,  46,  47,
+     48,  49,  50,  51,  52,  53,  54,  55,  56,  57,  58,  59,  60,  61,  62,  63,
+     64,  97,  98,  99, 100, 101, 102, 103, 104, 105, 106, 107, 108, 109, 110, 111,
+    112, 113, 114, 115, 116, 117, 118, 119, 120, 121, 122,  91,  92,  93,  94,  95,
+     96,  97,  98,  99, 100, 101, 102, 103, 104, 105, 106, 107, 108, 109, 110, 111,
+    112, 113, 114, 115, 116, 117, 118, 119, 120, 121, 122, 123, 124, 125, 126, 127,
+    128, 129, 130, 131, 132, 133, 134, 135, 136, 137, 138, 139, 140, 141, 142, 143,
+    144, 145, 146, 147, 148, 149, 150, 151, 152, 153, 154, 155, 156, 157, 158, 159,
+    160, 161, 162, 163, 164, 165, 166, 167, 168, 169, 170, 171, 172, 173, 174, 175,
+    176, 177, 178, 179, 180, 181, 182, 183, 184, 185, 186, 187, 188, 189, 190, 191,
+    192, 193, 194, 195, 196, 197, 198, 199, 200, 201, 202, 203, 204, 205, 206, 207,
+    208, 209, 210, 211, 212, 213, 214, 215, 216, 217, 218, 219, 220, 221, 222, 223,
+    224, 225, 226, 227, 228, 229, 230, 231, 232, 233, 234, 235, 236, 237, 238, 239,
+    240, 241, 242, 243, 244, 245, 246, 247, 248, 249, 250, 251, 252, 253, 254, 255,
+};
+#define SPEC_HEXVAL(c) (verif_hexval_tab[(uint8_t)(c)])
+#define SPEC_LOWER(c) (verif_lower_tab[(uint8_t)(c)])
 
 /* ------------------------------------------------------------------ views over caller memory (no byte is touched) */
 
@@ -666,7 +707,6 @@ ENS_PREFIX_KEPT(buf)
  * (CBMC's library models are unbounded loops).  The existential part of their specification ("there is a first
  * differing / matching byte") is Skolemised: the replaced call reports the position in the ghost g_mm, the universal
  * part ("all bytes before it are equal / differ from c") is stated for the arbitrary witness g_j. */
-size_t g_mm;
 #define U8P(p) ((const uint8_t *)(p))
 int memcmp(const void *s1, const void *s2, size_t n)
 __CPROVER_requires(s1 != NULL && s2 != NULL && (n == 0 || (__CPROVER_r_ok(s1, n) && __CPROVER_r_ok(s2, n))))
@@ -685,7 +725,6 @@ __CPROVER_ensures(RET != NULL ==> g_mm < n && PEQ(RET, (void *)(U8P(s) + g_mm)) 
 
 /* ------------------------------------------------------------------ user predicates: an arbitrary pure function of the byte,
  * modelled by the ghost table g_pred (DFCC leaves it nondeterministic: every predicate) */
-bool g_pred[256];
 bool byte_pred_contract(uint8_t value)
 __CPROVER_requires(1)
 __CPROVER_assigns()
@@ -910,13 +949,29 @@ __CPROVER_ensures(1)
 
 /* substr is zeroed before the first call; afterwards it is the previous piece (a view inside input).  For an input
  * without storage (NULL, 0) the first call hands out an empty piece with some non-NULL pointer, the second ends. */
+/* When the previous piece ends exactly at the end of the input, line 229 forms input_end + 1 (two past the end of an
+ * object of exactly input->len bytes) before comparing it with input_end: formally undefined pointer arithmetic, flagged by
+ * CBMC's pointer checks although no byte is accessed.  The enforcing proof is therefore split in two units that together
+ * cover every input: next_split (storage of exactly len bytes, every other case) and next_split_end (that case alone, with
+ * one addressable byte after the view, as for a view into a C string; the path returns without any dereference). */
+#if defined(VERIF_NEXT_SPLIT_END)
+#    define NS_INPUT __CPROVER_requires(__CPROVER_is_fresh(input_str, sizeof(*input_str)) && input_str->len < VERIF_HUGE && __CPROVER_is_fresh(input_str->ptr, input_str->len + 1))
+#    define NS_CASE __CPROVER_requires(substr->ptr != NULL && VIEW_OFF(input_str, substr->ptr) + substr->len == input_str->len)
+#elif defined(VERIF_NEXT_SPLIT_NOT_END)
+#    define NS_INPUT __CPROVER_requires(CUR_OK(input_str))
+#    define NS_CASE __CPROVER_requires(!(substr->ptr != NULL && input_str->ptr != NULL && VIEW_OFF(input_str, substr->ptr) + substr->len == input_str->len))
+#else
+#    define NS_INPUT __CPROVER_requires(CUR_OK(input_str))
+#    define NS_CASE
+#endif
 bool aws_byte_cursor_next_split(const struct aws_byte_cursor *AWS_RESTRICT input_str, char split_on, struct aws_byte_cursor *AWS_RESTRICT substr)
-__CPROVER_requires(CUR_OK(input_str))
+NS_INPUT
 __CPROVER_requires(__CPROVER_is_fresh(substr, sizeof(*substr)))
 __CPROVER_requires(substr->ptr == NULL ||
                    (input_str->ptr == NULL && substr->len == 0 && __CPROVER_is_fresh(substr->ptr, 1)) ||
                    (input_str->ptr != NULL && __CPROVER_pointer_in_range_dfcc(input_str->ptr, substr->ptr, input_str->ptr + input_str->len) &&
                     substr->len <= input_str->len - VIEW_OFF(input_str, substr->ptr)))
+NS_CASE
 __CPROVER_assigns(*substr, g_mm)
 /* exact result: false when the previous piece ended at the end of the input (or the input has no storage) */
 __CPROVER_ensures(RET == (OLD(substr->ptr) == NULL ||
@@ -983,13 +1038,54 @@ int aws_byte_cursor_find_exact(const struct aws_byte_cursor *AWS_RESTRICT input_
 __CPROVER_requires(CUR_OK(input_str) && CUR_OK(to_find))
 __CPROVER_requires(__CPROVER_is_fresh(first_find, sizeof(*first_find)))
 __CPROVER_assigns(g_mm)
-__CPROVER_assigns(to_find->len >= 1 && to_find->len <= input_str->len : first_find->ptr, first_find->len)
+__CPROVER_assigns(to_find->len >= 1 && to_find->len <= input_str->len : *first_find)
 __CPROVER_ensures(RET == AWS_OP_SUCCESS || RET == AWS_OP_ERR)
 __CPROVER_ensures(to_find->len == 0 || to_find->len > input_str->len ==> RET == AWS_OP_ERR)
 __CPROVER_ensures(RET == AWS_OP_ERR ==> first_find->ptr == OLD(first_find->ptr) && first_find->len == OLD(first_find->len))
 __CPROVER_ensures(RET == AWS_OP_SUCCESS ==> first_find->len >= to_find->len && first_find->len <= input_str->len &&
                   PEQ(first_find->ptr, input_str->ptr + (input_str->len - first_find->len)))
 __CPROVER_ensures(RET == AWS_OP_SUCCESS && g_j < to_find->len ==> first_find->ptr[g_j] == to_find->ptr[g_j])
+;
+
+/* ------------------------------------------------------------------ number parsing
+ * The cursor is passed by value (nothing of the caller's view can change).  On every failure *dst is 0 (the code zeroes
+ * it first and stores the result only at the end), never a half-computed value.
+ *   success ==> non-empty and every byte is a digit of the base              [= one bad digit ==> failure]
+ *   base 16 : the value is given digit by digit (nibble p of *dst is the digit p places from the right; digits more
+ *             than 16 places from the right are 0): complete characterisation of the value
+ *   base 10 : last digit == *dst % 10, one-digit strings exact; the full value is compared with a reference
+ *             implementation for all strings of up to 21 characters in the bounded unit parse_u64_bounded
+ * Not stated (needs the universal "all digits valid and the value fits" as a hypothesis): that such a string is accepted. */
+#define RU_PLACE (cursor.len - 1 - g_j)
+#ifdef VERIF_RU_NO_VALUE
+#define RU_VALUE_CLAUSES(BASE)
+#else
+#define RU_VALUE_CLAUSES(BASE) \
+    __CPROVER_ensures(RET == AWS_OP_SUCCESS && (BASE) == 10 ==> *dst % 10 == SPEC_HEXVAL(cursor.ptr[cursor.len - 1]))  \
+    __CPROVER_ensures(RET == AWS_OP_SUCCESS && (BASE) == 16 && g_j < cursor.len ==>                                    \
+                      (RU_PLACE >= 16 ? SPEC_HEXVAL(cursor.ptr[g_j]) == 0                                              \
+                                      : ((*dst >> (4 * RU_PLACE)) & 0xF) == SPEC_HEXVAL(cursor.ptr[g_j])))
+#endif
+#define READ_UNSIGNED_CONTRACT(BASE)                                                                                   \
+    __CPROVER_requires((cursor.len == 0 && cursor.ptr == NULL) || __CPROVER_is_fresh(cursor.ptr, cursor.len))          \
+    __CPROVER_requires(__CPROVER_is_fresh(dst, sizeof(*dst)))                                                          \
+    __CPROVER_assigns(*dst)                                                                                            \
+    __CPROVER_ensures(RET == AWS_OP_SUCCESS || RET == AWS_OP_ERR)                                                      \
+    __CPROVER_ensures(cursor.len == 0 ==> RET == AWS_OP_ERR)                                                           \
+    __CPROVER_ensures(RET != AWS_OP_SUCCESS ==> *dst == 0)                                                             \
+    __CPROVER_ensures(RET == AWS_OP_SUCCESS ==> cursor.len > 0 && (g_j < cursor.len ==> SPEC_HEXVAL(cursor.ptr[g_j]) < (BASE))) \
+    __CPROVER_ensures(RET == AWS_OP_SUCCESS && cursor.len == 1 ==> *dst == SPEC_HEXVAL(cursor.ptr[0]))                 \
+    RU_VALUE_CLAUSES(BASE)
+
+static int s_read_unsigned(struct aws_byte_cursor cursor, uint64_t *dst, uint8_t base)
+__CPROVER_requires(base == 10 || base == 16)
+READ_UNSIGNED_CONTRACT(base)
+;
+int aws_byte_cursor_utf8_parse_u64(struct aws_byte_cursor cursor, uint64_t *dst)
+READ_UNSIGNED_CONTRACT(10)
+;
+int aws_byte_cursor_utf8_parse_u64_hex(struct aws_byte_cursor cursor, uint64_t *dst)
+READ_UNSIGNED_CONTRACT(16)
 ;
 
 #endif
